@@ -105,6 +105,23 @@ fn case_inner(sink: &mut Sink, model: &mut Model, key: &KeyInfo, meta: &Metadata
     sink.oracle(same, "signature is not over the reference canonical JSON", &replay);
     sink.oracle(verify_accepts(meta, &key.key, &reference), "signature made over the reference canonical JSON is rejected", &replay);
     sink.stat(&format!("{}/{}", class, if same { "ref-equal" } else { "ref-differs" }));
+    // the other direction of "interoperable": a file as a reference implementation writes it - the document,
+    // and a signature over the reference encoding of that document - read here (compact and indented text),
+    // verifies here
+    {
+        let sig = sign_bytes(&key.key, &reference);
+        let kid = serde_json::to_value(key.public().key_id()).ok().and_then(|v| v.as_str().map(String::from)).unwrap_or_default();
+        let file = serde_json::json!({"signatures": [{"keyid": kid, "sig": hex(&sig)}], "signed": j.clone()});
+        for text in [file.to_string(), serde_json::to_string_pretty(&file).unwrap_or_default()] {
+            let pk = key.public().clone();
+            let res = guarded(move || serde_json::from_str::<Metablock>(&text).map(|mb| mb.verify(1, [&pk]).is_ok()));
+            match res {
+                Ok(Ok(ok)) => sink.oracle(ok, "a file signed over the reference canonical JSON of its document (as a reference implementation writes it) does not verify here", &replay),
+                Ok(Err(_)) => sink.oracle(false, "a file holding a document this library wrote, signed by a reference implementation, is not accepted by the reader", &replay),
+                Err(()) => sink.oracle(false, "reading or verifying a reference-signed file panicked", &replay),
+            }
+        }
+    }
     // the third place that signs: `MetablockBuilder::from_raw_metadata(document).sign(..)`. Whatever the
     // document looks like - indented, with a member the model does not know, without an optional member,
     // an expiry in another notation - what is signed is the reference encoding of the metadata the block
